@@ -195,6 +195,9 @@ impl ImpactOutput {
 // the sample document is a literal of the source: named here
 #[verifier::external_body] pub proof fn assume_template(b: Seq<char>) ensures b == template() {}
 
+// ---- PINS: functions of /repo this unit (or the property it serves) only ASSUMES something about — a hand-written shim stands for them, or nothing at
+// all does. The assumption was made for one text of each; the token hash ties it to that text: a change makes the unit UNDECIDED (exit 2), never OK.
+//@@ pin src/api/rules_message.rs :: impl RuleChangeSet / fn update_existing_router = ee338acdba2c
 //@@ strlits
 } // verus!
 fn main() {}
